@@ -501,6 +501,16 @@ def iterator_rules(ctx):
                           "the iterator advances without a successful acquire_if_equal", fn.where(p_), fn=fn)
             # slow path: key copied (a local of class/value type initialised from cur->...) before find
             finds = flow.find(fn, {"k": "call", "callee_re": r"::find$"})
+            # the re-find by the CURRENT key is only correct when the current node is marked (find() then unlinks it and stops at its successor).  If
+            # it is entered merely because cur->next changed (a node was inserted behind cur, or cur's successor was unlinked) find() stops at cur
+            # itself and the same element is yielded a second time
+            marked = flow.negate_want(flow.cmp_want(lambda f, x: flow.has_src(f, x, "call:mark"), flow.const_is(0)))
+            for f_ in finds:
+                ok, path, n = flow.only_via_want(fn, f_, marked)
+                ctx.check(ok and n > 0, rid, inst + "#refind|cur-marked", "the re-find by the current key is entered only when the current node is marked",
+                          "operator++ re-finds by the current element's key on a path where the current node is not known to be marked (e.g. acquire_if_equal failed because "
+                          "a node was inserted right behind it): find() stops at the current node again and the iterator yields the same key twice although it was never "
+                          "removed", fn.where(f_), fn=fn, path=flow.describe_path(fn, path))
             for f_ in finds:
                 kn = fn.kids(f_)
                 keyargs = [x for x in kn if fn.nodes[x]["k"] == "ref" and fn.nodes[x].get("name") == "key"]
